@@ -61,6 +61,7 @@ func main() {
 		}
 		id := os.Args[2]
 		fs.Parse(os.Args[3:])
+		keepScratch = *keep
 		os.Exit(check(id, *tier, *budget, *keep))
 	case "replay":
 		if len(os.Args) < 3 {
@@ -224,7 +225,15 @@ func prepare(tag string, pkgs []string, native bool) *scratch {
 	return sc
 }
 
-func (sc *scratch) cleanup() { os.RemoveAll(sc.dir) }
+var keepScratch bool
+
+func (sc *scratch) cleanup() {
+	if keepScratch {
+		fmt.Fprintln(os.Stderr, "verif: scratch kept at", sc.dir)
+		return
+	}
+	os.RemoveAll(sc.dir)
+}
 
 // ---------------------------------------------------------------------------------------------
 // workers
@@ -538,9 +547,7 @@ func check(id, tier string, budgetOverride int, keep bool) int {
 	seed := seedEnv()
 	t0 := time.Now()
 	sc := prepare(id+"-"+tier, pkgsOf(p), false)
-	if !keep {
-		defer sc.cleanup()
-	}
+	defer sc.cleanup()
 	buildS := time.Since(t0).Seconds()
 	total := time.Duration(p.QuickS) * time.Second
 	if tier == "thorough" {
